@@ -460,8 +460,9 @@ void * isa_l_common_init(struct ec_backend_args *args, void *backend_sohandle,
     desc->w = args->uargs.w;
 
     /* validate EC arguments */
-    if (desc->w < 8) {
-        /* the word size is used in bytes (w / 8) to align the data */
+    if (desc->w < 8 || desc->w > 62) {
+        /* the word size is used in bytes (w / 8) to align the data,
+         * and 1LL << w below has to be defined */
         goto error;
     }
     {
